@@ -19,6 +19,7 @@
 //   cdown   cpputest_malloc_set_out_of_memory[_countdown] / set_not_out_of_memory with
 //           cpputest_malloc/calloc/strdup/strndup.
 #include <new>
+#include <deque>
 #include <csetjmp>
 #include <csignal>
 #include <cstdint>
@@ -40,7 +41,50 @@ namespace {
 char FILE_REG_A[] = "alpha.c", FILE_REG_B[] = "alpha.c";
 char FILE_USE_A[] = "alpha.c", FILE_USE_B[] = "alpha.c", FILE_USE_C[] = "beta.c";
 struct Loc { const char* reg; const char* use; size_t line; const char* name; };
-const Loc LOCS[3] = {{FILE_REG_A, FILE_USE_A, 10, "A"}, {FILE_REG_B, FILE_USE_B, 20, "B"}, {nullptr, FILE_USE_C, 10, "C"}};
+const Loc DEFAULT_LOCS[3] = {{FILE_REG_A, FILE_USE_A, 10, "A"}, {FILE_REG_B, FILE_USE_B, 20, "B"}, {FILE_USE_C, FILE_USE_C, 10, "C"}};
+// The three location roles of the history being executed (one process executes one history at a time).
+const Loc* LOCS = DEFAULT_LOCS;
+// reference: a location is the text of the file name plus the line
+bool same_loc(int a, int b) { return strcmp(LOCS[a].use, LOCS[b].use) == 0 && LOCS[a].line == LOCS[b].line; }
+
+// ---- location sets of the *_paths sections: A and B are designated, C never. Every name exists in two
+// separately allocated buffers with equal text (registration / allocation).
+struct LocSet { Loc l[3]; std::string desc; };
+std::vector<LocSet> LOCSETS;
+std::deque<std::string> g_names;                       // stable storage
+const char* keep_name(const std::string& s) { g_names.push_back(s); return g_names.back().c_str(); }
+std::string path_of(size_t n) {                         // deterministic path text of length n, no ':' in it
+    std::string s; const char* unit = "/build/tree/component_";
+    for (size_t i = 0; s.size() < n; i++) { s += unit; s += (char)('a' + i % 26); }
+    s.resize(n); return s;
+}
+void add_set(const std::string& desc, const std::string& fa, size_t la, const std::string& fb, size_t lb, const std::string& fc, size_t lc) {
+    LocSet x; x.desc = desc;
+    x.l[0] = Loc{keep_name(fa), keep_name(fa), la, "A"};
+    x.l[1] = Loc{keep_name(fb), keep_name(fb), lb, "B"};
+    x.l[2] = Loc{keep_name(fc), keep_name(fc), lc, "C"};
+    LOCSETS.push_back(x);
+}
+void build_locsets() {
+    const size_t SM = (size_t)-1;
+    std::string p126 = path_of(126), p127 = p126 + "x", p128 = p127 + "y", p129 = p128 + "z";
+    std::string c127 = path_of(127), c255 = path_of(255), p300 = path_of(300), p1000 = path_of(1000);
+    std::string q1000 = p1000, r1000 = p1000; q1000[999] = '#'; r1000[500] = '#';
+    add_set("A=alpha.c:10 B=alpha.c:20 C=beta.c:10", "alpha.c", 10, "alpha.c", 20, "beta.c", 10);
+    add_set("A=<126 chars>:10 B=A+'x' (127, A is a proper prefix):10 C=B+'y' (128):10", p126, 10, p127, 10, p128, 10);
+    add_set("A=<128>:1 B=A+'z' (129):1 C=<127, prefix of A>:1", p128, 1, p129, 1, p127, 1);
+    add_set("A=<127 common>a.c:42 B=<same 127>b.c:42 C=<the 127 common chars>:42", c127 + "a.c", 42, c127 + "b.c", 42, c127, 42);
+    add_set("A=<255>:0 B=A+'q' (256):0 C=<255, same text as A>:1", c255, 0, c255 + "q", 0, c255, 1);
+    add_set("A=<255 common>a:7 B=<same 255>b:7 C=<same 255>c:7", c255 + "a", 7, c255 + "b", 7, c255 + "c", 7);
+    add_set("A=<300>:SIZE_MAX B=<same 300>:SIZE_MAX-1 C=<same 300>:0", p300, SM, p300, SM - 1, p300, 0);
+    add_set("A=<1000>:10 B=<1000, last char differs>:10 C=<1000, char 500 differs>:10", p1000, 10, q1000, 10, r1000, 10);
+    add_set("A=<empty name>:10 B=<empty name>:0 C=x:10", "", 10, "", 0, "x", 10);
+    add_set("A=alpha.c:0 B=alpha.c:1 C=alpha.c:SIZE_MAX", "alpha.c", 0, "alpha.c", 1, "alpha.c", SM);
+    add_set("A=gamma.c:5 B=delta.c:5 C=gamma.c:5 (C is the same location as A, in a third buffer)", "gamma.c", 5, "delta.c", 5, "gamma.c", 5);
+    add_set("A=<129>:3 B=<same 129>:4 C=<same 129>:3 (C is the same location as A, in a third buffer)", p129, 3, p129, 4, p129, 3);
+    // registration and use must not share a buffer
+    for (auto& x : LOCSETS) for (auto& l : x.l) if (l.reg == l.use) vf::harness_error("location buffers shared");
+}
 
 struct Desig { int loc; int n; };            // loc < 0: global index n; else n-th allocation at LOCS[loc]
 // simplest first
@@ -54,7 +98,7 @@ enum Kind { ALLOC, DESIGNATE, CLEAR, CHECK };
 enum Family { F_DIRECT, F_MALLOC, F_NEW, F_NEWARRAY };
 const char* FAM_NAME[] = {"alloc", "malloc", "new", "new[]"};
 struct Op { Kind kind; int loc; int fam; Desig d; };
-struct Res { bool failed; int failures; char text[200]; };
+struct Res { bool failed; int failures; char text[1400]; };
 const int MAXOPS = 24;
 
 struct Cfg {
@@ -63,6 +107,7 @@ struct Cfg {
     bool real_test;              // check op: inside a test run by the real registry (else: recording test shell)
     int depth, nloc, maxdes, maxclear, maxcheck;
     const Desig* desigs; int ndesigs;
+    int nsets;                   // > 1: the first choice of a history selects one of LOCSETS for the roles A, B, C
 };
 
 // All choices are drawn before anything is executed: which operations are enabled depends only on the
@@ -127,7 +172,7 @@ struct Model {
         for (int i = 0; i < np; i++) {
             Pend p = pend[i]; bool hit;
             if (p.d.loc < 0) hit = p.d.n == g;
-            else { if (p.d.loc == loc) p.seen++; hit = p.d.loc == loc && p.seen == p.d.n; }
+            else { bool here = same_loc(p.d.loc, loc); if (here) p.seen++; hit = here && p.seen == p.d.n; }
             if (hit) hits++; else pend[keep++] = p;
         }
         np = keep;
@@ -200,7 +245,7 @@ bool do_alloc(FailableMemoryAllocator& fa, const Op& o) {       // true = alloca
 // the histories up to a smaller length with the check executed inside a test that the library's own
 // registry runs (vf::Fixture), where the failure has to end up as exactly one failed test.
 struct RecordingShell : UtestShell {
-    int failures = 0; char text[200];
+    int failures = 0; char text[1400];
     RecordingShell() : UtestShell("C15", "check", "c15_oom.cpp", 1) { text[0] = 0; }
     void record(const TestFailure& f) { failures++; snprintf(text, sizeof text, "%s", f.getMessage().asCharString()); }
     void failWith(const TestFailure& f) override { record(f); }
@@ -264,21 +309,29 @@ void execute(const Cfg& c, const Op* ops, int nops, Res* res, bool* final_failed
 }
 
 // does the report text name a designation that the model holds as pending?
-bool names_pending(const Model& m, const char* text) {
-    int n = 0, line = 0; char file[64];
-    if (sscanf(text, "Expected allocation number %d was never done", &n) == 1) {
-        for (int i = 0; i < m.np; i++) if (m.pend[i].d.loc < 0 && m.pend[i].d.n == n) return true;
-        return false;
+// Does the report text name a designation that the model holds as pending? The text has to be exactly
+// what the library prints for that designation, with the complete file name.
+// 0 yes; 1 no; 2 it names a pending location with a file name that is only a beginning of the real one
+int names_pending(const Model& m, const char* text) {
+    int verdict = 1;
+    for (int i = 0; i < m.np; i++) {
+        const Desig& d = m.pend[i].d;
+        if (d.loc < 0) { if (vf::fmt("Expected allocation number %d was never done", d.n) == text) return 0; continue; }
+        std::string head = "Expected failing alloc at ", tail = vf::fmt(":%d was never done", (int)LOCS[d.loc].line), t = text;
+        if (t == head + LOCS[d.loc].reg + tail) return 0;
+        if (t.size() >= head.size() + tail.size() && t.compare(0, head.size(), head) == 0 && t.compare(t.size() - tail.size(), tail.size(), tail) == 0) {
+            std::string named = t.substr(head.size(), t.size() - head.size() - tail.size());
+            if (named.size() < strlen(LOCS[d.loc].reg) && strncmp(LOCS[d.loc].reg, named.c_str(), named.size()) == 0) verdict = 2;
+        }
     }
-    if (sscanf(text, "Expected failing alloc at %63[^:]:%d was never done", file, &line) == 2) {
-        for (int i = 0; i < m.np; i++) { const Desig& d = m.pend[i].d; if (d.loc >= 0 && strcmp(LOCS[d.loc].reg, file) == 0 && (int)LOCS[d.loc].line == line) return true; }
-        return false;
-    }
-    return false;
+    return verdict;
 }
+std::string brief(const std::string& t) { return t.size() <= 240 ? t : t.substr(0, 90) + vf::fmt("...<%zu characters in all>...", t.size()) + t.substr(t.size() - 60); }
 
 void scenario(const Cfg& c, vf::Chooser& ch) {
     Op ops[MAXOPS]; Res res[MAXOPS]; bool final_failed[NFINAL];
+    int set = c.nsets > 1 ? ch.choose(c.nsets) : 0;
+    LOCS = c.nsets > 1 ? LOCSETS[set].l : DEFAULT_LOCS;
     int nops = draw(ch, c, ops);
     execute(c, ops, nops, res, final_failed);
 
@@ -288,6 +341,7 @@ void scenario(const Cfg& c, vf::Chooser& ch) {
     // Text is only rendered for a disagreement or a sample.
     auto render = [&](int upto, std::string* pending_before) {
         Model mm; std::string t;
+        if (c.nsets > 1) t = vf::fmt("[locations %d: %s] ", set, LOCSETS[set].desc.c_str());
         for (int i = 0; i <= upto && i < nops; i++) {
             if (i == upto && pending_before) *pending_before = mm.pending_str();
             const Op& o = ops[i]; t += op_str(o);
@@ -331,8 +385,8 @@ void scenario(const Cfg& c, vf::Chooser& ch) {
                 if (expect && r.failures == 0) sig = "check/pending-designation-not-reported";
                 else if (!expect && r.failures != 0) sig = "check/reported-although-nothing-pending";
                 else if (expect && r.failures != 1) sig = "check/failure-count";
-                else if (expect && !names_pending(m, r.text)) sig = "check/report-names-no-pending-designation";
-                if (sig) { report(sig, [&] { return render(i, nullptr) + ": pending {" + m.pending_str() + vf::fmt("}, the check raised %d failure(s): ", r.failures) + r.text; }); compare = false; }
+                else if (expect) { int v = names_pending(m, r.text); if (v == 1) sig = "check/report-names-no-pending-designation"; else if (v == 2) sig = "check/report-file-name-incomplete"; }
+                if (sig) { report(sig, [&] { return render(i, nullptr) + ": pending {" + m.pending_str() + vf::fmt("}, the check raised %d failure(s): ", r.failures) + brief(r.text); }); compare = false; }
             }
             break;
         }
@@ -522,25 +576,50 @@ int main(int argc, char** argv) {
     vf::info("rule", "every history over {allocate at location A/B/C, register one designated failure (global index 1..4 or n-th at A/B), clearFailedAllocs, checkAllFailedAllocsWereDone} up to the length bound, executed on a fresh FailableMemoryAllocator and compared step by step with a reference model; every C-level workload x arming position x countdown x restore position; non-trivial = at least one allocation was the target of a designation / of the simulated out-of-memory, or a check had a pending designation to report");
     {
         bool t = tier_of(8);
-        Cfg c{"direct", false, false, t ? 8 : 7, 3, t ? 3 : 2, 1, 1, DESIGS_DIRECT, 9};
+        Cfg c{"direct", false, false, t ? 8 : 7, 3, t ? 3 : 2, 1, 1, DESIGS_DIRECT, 9, 1};
         vf::info("direct.bound", vf::fmt("all histories of exactly %d operations (every prefix is compared): allocations at 3 locations (A=alpha.c:10, B=alpha.c:20, C=beta.c:10), <=%d distinct designations out of {global 1..4, (A,1..3), (B,1..2)} registered at any position, <=1 clearFailedAllocs and <=1 checkAllFailedAllocsWereDone (recording test shell) at any position; then clear + 4 allocations", c.depth, c.maxdes));
         vf::section_dfs(c.section, 2, false, [&](vf::Chooser& ch) { scenario(c, ch); });
         vf::require_outcomes(c.section, 20);
     }
     {
         bool t = tier_of(6);
-        Cfg c{"realtest", false, true, t ? 6 : 5, 3, 2, 1, 1, DESIGS_DIRECT, 9};
+        Cfg c{"realtest", false, true, t ? 6 : 5, 3, 2, 1, 1, DESIGS_DIRECT, 9, 1};
         vf::info("realtest.bound", vf::fmt("as direct with histories of exactly %d operations and <=2 designations, but checkAllFailedAllocsWereDone is called inside a test that the library's registry runs (TestTestingFixture); observed: number of failed tests and the failure text", c.depth));
         vf::section_dfs(c.section, 2, false, [&](vf::Chooser& ch) { scenario(c, ch); });
         vf::require_outcomes(c.section, 20);
     }
     {
         bool t = tier_of(6);
-        Cfg c{"mixed", true, false, t ? 6 : 5, 2, 2, 1, 0, DESIGS_MIXED, 6};
+        Cfg c{"mixed", true, false, t ? 6 : 5, 2, 2, 1, 0, DESIGS_MIXED, 6, 1};
         vf::info("mixed.bound", vf::fmt("all histories of exactly %d operations with the allocator installed for malloc, new and new[] under the global detector: allocations {malloc,new,new[]} x {A,B}, <=2 distinct designations out of {global 1..3, (A,1..2), (B,1)}, <=1 clearFailedAllocs; then clear + 4 allocations", c.depth));
         vf::section_dfs(c.section, 2, false, [&](vf::Chooser& ch) { scenario(c, ch); });
         vf::require_outcomes(c.section, 10);
     }
+    build_locsets();
+    int NS = (int)LOCSETS.size();
+    vf::info("paths.locations", "the first choice of a *_paths history selects the locations for the roles A, B (designated) and C (never designated); registration and allocation always pass different buffers with equal text; sets: " + [&] { std::string d; for (int i = 0; i < NS; i++) d += vf::fmt("%d: %s; ", i, LOCSETS[i].desc.c_str()); return d; }());
+    {
+        bool t = tier_of(6 + 1);
+        Cfg c{"direct_paths", false, false, t ? 6 : 5, 3, 2, 1, 1, DESIGS_DIRECT, 9, NS};
+        vf::info("direct_paths.bound", vf::fmt("%d location sets x all histories of exactly %d operations as in direct (<=2 designations, <=1 clear, <=1 check whose text must name the complete file of a pending designation)", NS, c.depth));
+        vf::section_dfs(c.section, 2, false, [&](vf::Chooser& ch) { scenario(c, ch); });
+        vf::require_outcomes(c.section, 20);
+    }
+    {
+        bool t = tier_of(5 + 1);
+        Cfg c{"realtest_paths", false, true, t ? 5 : 4, 3, 2, 1, 1, DESIGS_DIRECT, 9, NS};
+        vf::info("realtest_paths.bound", vf::fmt("%d location sets x all histories of exactly %d operations as in realtest (check inside a test run by the registry; the failure text in the test output must name the complete file)", NS, c.depth));
+        vf::section_dfs(c.section, 2, false, [&](vf::Chooser& ch) { scenario(c, ch); });
+        vf::require_outcomes(c.section, 10);
+    }
+    {
+        bool t = tier_of(5 + 1);
+        Cfg c{"mixed_paths", true, false, t ? 5 : 4, 2, 2, 1, 0, DESIGS_MIXED, 6, NS};
+        vf::info("mixed_paths.bound", vf::fmt("%d location sets x all histories of exactly %d operations as in mixed (malloc/new/new[] x {A,B} under the detector)", NS, c.depth));
+        vf::section_dfs(c.section, 2, false, [&](vf::Chooser& ch) { scenario(c, ch); });
+        vf::require_outcomes(c.section, 10);
+    }
+    LOCS = DEFAULT_LOCS;
     {
         long N = (T || vf::g_replaying) ? cdown_N(3) + cdown_N(4) : cdown_N(3);
         vf::info("cdown.bound", vf::fmt("all workloads of L allocations over {malloc, calloc, strdup, strndup} x armed before operation 0..L-1 x {set_out_of_memory, countdown 0..L+2} x restored before operation arm+1..L-1 or only at the end x {not armed again, set_out_of_memory / countdown(0) / countdown(2) again right before the restoring call}, L = %s; then restore, one allocation of each family, countdown(2) again", T ? "3 and 4" : "3"));
